@@ -544,7 +544,8 @@ fn gen_freq(rng: &mut Rng, fs: f32, chaos: bool) -> f32 {
         return (fs as f64 * rng.uniform(1.0, 4.0)) as f32;
     }
     let step = fs as f64 / TWO24; // frequency of one counter step per tick
-    match rng.below(if chaos { 6 } else { 12 }) {
+    let cases = if chaos && rng.chance(0.7) { 6 } else { 12 };
+    match rng.below(cases) {
         0 => 0.0,
         1 => (step * *rng.pick(&[0.25, 0.5, 0.999, 1.0, 1.5, 2.5, 3.0, 7.9, 64.0])) as f32,
         2 => fs,
@@ -581,7 +582,13 @@ fn random_run(rng: &mut Rng, prof: &Profile, run: u64, sink: &mut Sink<LfoEngine
     let chaos = prof.chaos;
     ABOVE_FS.with(|a| a.set(prof.focus == 10));
     let fs = if chaos {
-        *rng.pick(&[100.0f32, 192000.0, 192000.0, 44100.0])
+        if rng.chance(0.5) {
+            *rng.pick(&[100.0f32, 192000.0, 192000.0, 44100.0])
+        } else if rng.chance(0.5) {
+            *rng.pick(&fs_specials())
+        } else {
+            rng.log_uniform(100.0, 192000.0) as f32
+        }
     } else if rng.chance(0.6) {
         *rng.pick(&fs_specials())
     } else {
@@ -731,6 +738,9 @@ fn random_run(rng: &mut Rng, prof: &Profile, run: u64, sink: &mut Sink<LfoEngine
 /// single-fault sweep: a seeded oscillator with a short cycle; one modulator / sync / reader event injected at
 /// every tick of one and a half cycles
 fn sweep_run(rng: &mut Rng, sink: &mut Sink<LfoEngine>) {
+    // the sweep stays inside [0, sample rate]; set explicitly so that the draw does not depend on what the worker
+    // thread generated before
+    ABOVE_FS.with(|a| a.set(false));
     let fs = if rng.chance(0.6) { *rng.pick(&fs_specials()) } else { rng.log_uniform(100.0, 192000.0) as f32 };
     let per = rng.range(8, 48) as f64 + rng.f64();
     let f0 = (fs as f64 / per) as f32;
